@@ -1,6 +1,7 @@
 package main
 
 import (
+	"bytes"
 	"fmt"
 	"sort"
 	"strconv"
@@ -8,9 +9,11 @@ import (
 	"sync"
 	"time"
 
+	"github.com/datastax/go-cassandra-native-protocol/frame"
 	"github.com/datastax/go-cassandra-native-protocol/message"
 	"github.com/datastax/go-cassandra-native-protocol/primitive"
 	"verifharness/internal/e2e"
+	"verifharness/internal/fakecass"
 	"verifharness/internal/rng"
 )
 
@@ -19,6 +22,9 @@ import (
 //         c<i> connect client i | r<i>:<event types> REGISTER | d<i> disconnect
 //         s<k>:<target>  backend emits schema-change event k | t topology event | u status event
 //         x              the control connection is dropped (the proxy fails over / reconnects)
+//         y<k>:<target>  the control connection is dropped, and the backend emits schema-change event k on the new
+//                        control connection as soon as its REGISTER is acknowledged (while the proxy is still
+//                        running its topology queries on it)
 // real: per client "<i>=<event ids received, in order>" (sorted by client) [+ anomalies]
 
 func init() { streams["events"] = stream{gen: genEvents, run: runEvents} }
@@ -200,6 +206,35 @@ func runEvents(op string) (out string) {
 		case 'u':
 			env.Cluster.Event(&message.StatusChangeEvent{ChangeType: primitive.StatusChangeTypeDown, Address: &primitive.Inet{Addr: []byte{127, 9, 9, 9}, Port: 9042}})
 			quiesce()
+		case 'y':
+			p := strings.SplitN(a[1:], ":", 2)
+			k, _ := strconv.Atoi(p[0])
+			ev := schemaEvent(k, p[1])
+			mu.Lock()
+			sent[k] = ev
+			mu.Unlock()
+			var once sync.Once
+			env.Cluster.AfterRegister = func(c *fakecass.Conn) {
+				once.Do(func() {
+					f := frame.NewFrame(c.Version, -1, ev)
+					var buf bytes.Buffer
+					if fakecass.Codec("").EncodeFrame(f, &buf) == nil {
+						_ = c.WriteRaw(buf.Bytes())
+					}
+				})
+			}
+			for _, ip := range env.Cluster.NodeIPs() {
+				env.Cluster.Node(ip).DropConns(func(c interface{ Registered() bool }) bool { return c.Registered() })
+			}
+			time.Sleep(10 * time.Millisecond)
+			if !waitControl() {
+				mu.Lock()
+				anomalies = append(anomalies, "control-connection-not-restored")
+				mu.Unlock()
+			}
+			env.Cluster.AfterRegister = nil
+			time.Sleep(30 * time.Millisecond)
+			quiesce()
 		case 'x':
 			for _, ip := range env.Cluster.NodeIPs() {
 				env.Cluster.Node(ip).DropConns(func(c interface{ Registered() bool }) bool { return c.Registered() })
@@ -234,6 +269,8 @@ func genEvents(e *emitter, r *rng.R, n int, tier string) {
 		"L:3 c0 c1 c2 r0:SCHEMA_CHANGE r1:TOPOLOGY_CHANGE,STATUS_CHANGE s1:K t u s2:T d0 s3:F",
 		"L:2 c0 r0:SCHEMA_CHANGE s1:K x s2:T c1 r1:STATUS_CHANGE,SCHEMA_CHANGE s3:A",
 		"L:2 c0 r0:SCHEMA_CHANGE r0:SCHEMA_CHANGE s1:Y",
+		"L:2 c0 c1 r0:SCHEMA_CHANGE y1:K s2:T",
+		"L:1 c0 r0:SCHEMA_CHANGE s1:K y2:T y3:A s4:F",
 	}
 	defer func() { e.emitAll(ops, 8) }()
 	types := []string{"SCHEMA_CHANGE", "TOPOLOGY_CHANGE", "STATUS_CHANGE", "SCHEMA_CHANGE,TOPOLOGY_CHANGE", "TOPOLOGY_CHANGE,STATUS_CHANGE", "STATUS_CHANGE,SCHEMA_CHANGE,TOPOLOGY_CHANGE", "SCHEMA_CHANGE"}
@@ -254,6 +291,9 @@ func genEvents(e *emitter, r *rng.R, n int, tier string) {
 			case c < 15:
 				ev++
 				parts = append(parts, fmt.Sprintf("s%d:%s", ev, rr.Pick([]string{"K", "T", "Y", "F", "A"})))
+			case c == 15 && rr.Intn(3) == 0:
+				ev++
+				parts = append(parts, fmt.Sprintf("y%d:%s", ev, rr.Pick([]string{"K", "T", "Y", "F", "A"})))
 			case c < 17:
 				parts = append(parts, "t")
 			case c < 19:
